@@ -123,8 +123,17 @@ F19_WITNESS = {"op": "contest", "scf": PLUR, "contest": "AvB", "candidates": ["a
                         card(3, "AvB", [["b", True]])]}
 
 
+# finding F30 (repaired): candidates a, a v b, b v c, c with reported winners a, a v b -- the pairs (a, b v c) and
+# (a v b, c) are both named "a v b v c".  On these cards the reported winner a (1 mark) lost to b v c (2 marks); the
+# unrepaired constructor built 3 assertions for the 4 pairs, all with mean > 1/2; the repaired one raises ValueError
+F30_WITNESS = {"op": "contest", "scf": PLUR, "contest": "K", "candidates": ["a", "a v b", "b v c", "c"],
+               "winners": ["a", "a v b"], "n_winners": 2, "share": 0.5,
+               "cvrs": [card(1, "K", [["a v b", True]]), card(2, "K", [["a v b", True]]), card(3, "K", [["a v b", True]]),
+                        card(4, "K", [["b v c", True]]), card(5, "K", [["b v c", True]]), card(6, "K", [["a", True]])]}
+
+
 def corpus():
-    out = [F19_WITNESS]
+    out = [F19_WITNESS, F30_WITNESS, {**F30_WITNESS, "direct": True}]
     # the witness of the (repaired) super-majority margin formula: blank card, winner has valid votes
     out.append({"op": "contest", "scf": SUPER, "contest": "S", "candidates": ["a", "b"], "winners": ["a"],
                 "n_winners": 1, "share": 0.5,
@@ -226,7 +235,22 @@ def corpus():
 
 
 NAMES = [["a", "b", "c", "d", "e", "f"], ["Alice", "Bob", "Carol", "Dave", "Erin", "Frank"],
-         ["1", "2", "3", "4", "5", "6"], ["yes", "no", "x y", "ALL", "WRITE_IN", "q"]]
+         ["1", "2", "3", "4", "5", "6"], ["yes", "no", "x y", "ALL", "WRITE_IN", "q"],
+         # names containing the separator of the assertion names `winner + " v " + loser`: the pairs (a, b v c) and
+         # (a v b, c) are both named "a v b v c" (finding F30: the constructor must not drop one of them silently)
+         ["a", "a v b", "b v c", "c", "b", "a v a"]]
+
+
+def _name_clash(case):
+    """do two DIFFERENT (winner, loser) pairs of the plurality / approval contest get the same assertion name?"""
+    losers = [c for c in dict.fromkeys(case["candidates"]) if c not in case["winners"]]
+    seen = {}
+    for w in case["winners"]:
+        for l in losers:
+            k = w + " v " + l
+            if seen.setdefault(k, (w, l)) != (w, l):
+                return True
+    return False
 SHARES_DYADIC = [0.5, 0.25, 0.75, 0.375, 0.625]
 SHARES = SHARES_DYADIC + [0.55, 0.6, 2 / 3, 1 / 3, 0.9, 0.1, 0.51]
 
@@ -939,7 +963,17 @@ def oracle_c02(case, ir):
 def _oracle_state(case, ir):
     op = case["op"]
     if ir.get("st") != "ok":
+        if op == "contest" and case["scf"] in (PLUR, APPR) and ir.get("err") == "ValueError" and _name_clash(case):
+            return None     # two different pairs would share one assertion name: refusing is right (dropping one is F30)
         return {"what": f"{op}: the implementation raised {ir.get('err')}: {ir.get('msg', '')}"}
+    if op == "contest" and case["scf"] in (PLUR, APPR):
+        # one assertion for EVERY (reported winner, reported loser) pair -- what the all-pairs statement is about
+        have = {(a["winner"], a["loser"]) for a in ir["assertions"].values()}
+        losers_ = [c for c in dict.fromkeys(case["candidates"]) if c not in case["winners"]]
+        missing = [(w, l) for w in case["winners"] for l in losers_ if (w, l) not in have]
+        if missing:
+            return {"what": f"no assertion compares winner {missing[0][0]!r} with loser {missing[0][1]!r} "
+                            f"(assertions built: {sorted(ir['assertions'])}): that pair would never be audited"}
     if op == "margin":
         return None         # no cards: nothing of the property to evaluate (the correspondence covers the branch)
     cvrs = case["cvrs"]
